@@ -13,8 +13,8 @@ namespace LtVerif.Gw
 
 def recOf (w : World) (s : Nat) : Nat := (w.auxOf s).reconnects
 
-/-- scripted answers left (each can reset the retry counter at most once) and retry budget left -/
-def mu (s : Nat) (w : World) : Nat := 6 * w.script.size + (5 - recOf w s)
+/-- retry budget left: nothing ever resets hctx->reconnects within a request -/
+def mu (s : Nat) (w : World) : Nat := 5 - recOf w s
 
 /-- w' is no further from the end of slot s's retry loop than w, and slot s is neither freed nor created -/
 structure Mono (s : Nat) (w w' : World) : Prop where
@@ -194,16 +194,21 @@ theorem mono_hostGet (w : World) (s s' : Nat) : Mono s w (hostGet w s').2 := by
   · exact mono_lastUsed _ _ _
   · mono_close
 
+theorem mono_setHostLoad (w : World) (s h : Nat) (v : Int) : Mono s w (setHostLoad w h v) :=
+  mono_of (Nat.le_refl _) rfl (Nat.le_refl _)
+theorem mono_setProcLoad (w : World) (s h p : Nat) (v : Int) : Mono s w (setProcLoad w h p v) :=
+  mono_of (Nat.le_refl _) rfl (Nat.le_refl _)
+
 theorem mono_hostAssign (w : World) (s s' h : Nat) : Mono s w (hostAssign w s' h) := by
   unfold hostAssign; split
   · exact Mono.refl _ _
-  · exact (mono_updLink _ _ _ _).trans (mono_updHost _ _ _ _)
+  · exact (mono_updLink _ _ _ _).trans (mono_setHostLoad _ _ _ _)
 
 theorem mono_procAcquire (w : World) (s s' h p : Nat) : Mono s w (procAcquire w s' h p) := by
   unfold procAcquire; split
   · exact Mono.refl _ _
   · dsimp only
-    exact ((mono_updLink _ _ _ _).trans (mono_updProc _ _ _ _ _)).trans (mono_counters _ _ _ _ _ _ _)
+    exact ((mono_updLink _ _ _ _).trans (mono_setProcLoad _ _ _ _ _)).trans (mono_counters _ _ _ _ _ _ _)
 
 theorem mono_openFd (w : World) (s s' : Nat) : Mono s w (openFd w s') := by
   unfold openFd; split
@@ -241,11 +246,11 @@ theorem mono_backendClose (w : World) (s s' : Nat) : Mono s w (backendClose w s'
     · exact R1
     · rename_i h _
       refine Mono.trans ?_ (mono_updLink _ _ _ _)
-      refine Mono.trans ?_ (mono_updHost _ _ _ _)
+      refine Mono.trans ?_ (mono_setHostLoad _ _ _ _)
       split
       · rename_i p _
         refine Mono.trans ?_ (mono_updLink _ _ _ _)
-        exact (R1.trans (mono_updProc _ _ _ _ _)).trans (mono_counters _ _ _ _ _ _ _)
+        exact (R1.trans (mono_setProcLoad _ _ _ _ _)).trans (mono_counters _ _ _ _ _ _ _)
       · exact R1
 
 macro_rules | `(tactic| mono_peel) => `(tactic| first
@@ -339,50 +344,19 @@ theorem mono_wrRegister (w : World) (s s' h p : Nat) : Mono s w (wrRegister w s'
   refine Mono.trans ?_ (mono_updHost _ _ _ _)
   mono_close
 
-/-- the only reset of the retry counter: an immediately successful connect(), paid for by
-    the scripted answer it consumed -/
-theorem mono_reset (w : World) (s s' : Nat) (sc : Script) (h : sc.size < w.script.size) :
-    Mono s w (({ w with script := sc }.emit (.dispatch s' 0 0)).updAux s' fun a => { a with reconnects := 0 }) := by
-  refine ⟨?_, ?_⟩
-  · unfold mu
-    have : ({ w with script := sc }.emit (.dispatch s' 0 0)).script.size = sc.size := rfl
-    show 6 * sc.size + _ ≤ _
-    omega
-  · simp only [World.updAux, World.updSlot, World.emit]
-    by_cases e : s = s'
-    · subst e; cases w.slot s <;> simp
-    · simp [e]
-
 theorem mono_wrConnect (w : World) (s s' h p : Nat) : Mono s w (wrConnect w s' h p).2 := by
   have hsz := popConn_size w
   obtain ⟨sc, e⟩ := popConn_eq w
   unfold wrConnect; dsimp only
   rw [e] at hsz ⊢
-  have R1 : Mono s w ({ w with script := sc }.emit (.dispatch s' h p)) :=
-    (mono_script w s sc hsz.1).trans (mono_emit _ _ _)
+  have R1 : Mono s w (({ w with script := sc }.emit (.dispatch s' h p)).updAux s'
+      fun a => { a with dispatched := a.dispatched + 1 }) :=
+    ((mono_script w s sc hsz.1).trans (mono_emit _ _ _)).trans
+      (mono_updAux _ _ _ _ (fun _ => Nat.le_refl _))
+  generalize (({ w with script := sc }.emit (.dispatch s' h p)).updAux s'
+      fun a => { a with dispatched := a.dispatched + 1 }) = W at R1 ⊢
   split
-  · rename_i hk
-    -- class 0 ⇒ the answer was 'k' ⇒ it was really popped
-    have hk' : (popConn w).1 = 'k' := by
-      unfold connClass at hk
-      by_cases e1 : (popConn w).1 = 'k'
-      · exact e1
-      · simp only [e1, if_false] at hk
-        split at hk
-        · cases hk
-        · split at hk
-          · split at hk <;> cases hk
-          · cases hk
-    have hlt : sc.size < w.script.size := hsz.2.1 hk'
-    refine Mono.trans ?_ (mono_wrConnected _ _ _)
-    refine ⟨?_, ?_⟩
-    · unfold mu
-      show 6 * sc.size + _ ≤ _
-      omega
-    · simp only [World.updAux, World.updSlot, World.emit]
-      by_cases e : s = s'
-      · subst e; cases w.slot s <;> simp
-      · simp [e]
+  · exact R1.trans (mono_wrConnected _ _ _)
   · dsimp only
     mono_close
   · dsimp only
@@ -490,7 +464,6 @@ theorem recInc_lt (w : World) (s : Nat) (hs : (w.slot s).isSome) (h5 : recOf w s
     | none => simp [hc] at hs
     | some c => simp
   rw [this]
-  show 6 * w.script.size + _ < _
   omega
 
 theorem wr_no_comeback (w : World) (s : Nat) :
@@ -748,7 +721,8 @@ theorem backendClose_seen (w : World) (s : Nat) :
   | some c =>
     dsimp only
     cases c.link.fd <;> cases c.link.host <;> cases c.link.proc <;>
-      simp [World.auxOf, World.updHost, World.updLink, World.updAux, World.updSlot, World.updProc, hc]
+      simp [World.auxOf, setHostLoad, setProcLoad, World.updHost, World.updLink, World.updAux, World.updSlot,
+        World.updProc, hc]
 
 /-- gw_backend_error() on a request whose response has not begun: handler dropped, status
     an error (≥ 500, or the 400 a failed create_env left) -/
